@@ -29,7 +29,7 @@ func init() { families["reload"] = runReload }
 func runReload(seed uint64, n int, tier string, out string, replay string) {
 	rnd := hx.NewRand(seed)
 	sum := hx.NewSummary("reload", seed)
-	sum.Rule = "first: 16 goroutines route tenant hosts continuously (host-restricted location with 48 hosts + catch-all; each lookup must return the tenants location) while the location registry is re-applied 20000+100n times, alternately with and without one more, more specific location (a runtime crash is caught through inflight.json); then one case = one request through the full middleware chain (error, fresh, responder, cache, proxy) to an origin that parks it; while it is parked one of: upstream.Reset with the upstream's Accept-Encoding added / removed / changed, location.Reset with other added headers, server.Reset with another compress threshold, compress.Reset with other levels, a purge of the key, the server re-bound to another cache while its old cache profile is dropped, nothing; then the origin answers (gzip when asked for it) and a second client repeats the request (hit); both responses must carry a Content-Encoding their own client accepts, decode to the origin's body for that URL and have status 200; non-trivial = something happened while parked; distinct by (event, encodings)"
+	sum.Rule = "first: 16 goroutines route tenant hosts continuously (host-restricted location with 48 hosts + catch-all; each lookup must return the tenants location) while the location registry is re-applied 20000+100n times, alternately with and without one more, more specific location (a runtime crash is caught through inflight.json); then 32 goroutines concurrently cold-fetch keys of their own with compressible bodies (GetHTTPCache, Get, Cacheable) and read them back as hits under gzip / br / identity, each body compared with what was stored; then one case = one request through the full middleware chain (error, fresh, responder, cache, proxy) to an origin that parks it; while it is parked one of: upstream.Reset with the upstream's Accept-Encoding added / removed / changed, location.Reset with other added headers, server.Reset with another compress threshold, compress.Reset with other levels, a purge of the key, the server re-bound to another cache while its old cache profile is dropped, nothing; then the origin answers (gzip when asked for it) and a second client repeats the request (hit); both responses must carry a Content-Encoding their own client accepts, decode to the origin's body for that URL and have status 200; non-trivial = something happened while parked; distinct by (event, encodings)"
 	distinct := hx.NewDistinct()
 	var mu sync.Mutex
 	gate := map[string]chan struct{}{}
@@ -119,6 +119,92 @@ func runReload(seed uint64, n int, tier string, out string, replay string) {
 		sum.Distribution["route_lookups_during_reloads"] = int(lookups.Load())
 		if wrong.Load() > 0 {
 			sum.ImplViolations = append(sum.ImplViolations, map[string]interface{}{"property": "C20+C14+C16", "kind": "misrouted-during-reloads", "count": wrong.Load(), "lookups": lookups.Load()})
+		}
+		_ = os.Remove(out + "/inflight.json")
+	}
+	// concurrent cold fetches: 32 goroutines each fetch their own key (get-or-create, fetching, Cacheable with a
+	// compressible body of its own), then read it back as a hit under gzip, br and identity; every body must
+	// decode to what that goroutine stored (a runtime crash is caught through inflight.json / recover)
+	{
+		_ = os.WriteFile(out+"/inflight.json", []byte(`{"family":"reload","event":"32 goroutines concurrently: cold fetch of a key of their own with a compressible body (GetHTTPCache, Get, Cacheable), then a hit served under gzip / br / identity"}`), 0o644)
+		d := cache.GetDispatcher("rc")
+		const workers, rounds = 32, 6
+		var wg sync.WaitGroup
+		var vmu sync.Mutex
+		var bad []map[string]interface{}
+		report := func(v map[string]interface{}) {
+			vmu.Lock()
+			if len(bad) < 5 {
+				bad = append(bad, v)
+			}
+			vmu.Unlock()
+		}
+		for wkr := 0; wkr < workers; wkr++ {
+			wg.Add(1)
+			go func(wkr int) {
+				defer wg.Done()
+				for round := 0; round < rounds; round++ {
+					key := []byte(fmt.Sprintf("GET parallel.example /w%d/r%d", wkr, round))
+					var body []byte
+					for k := 0; len(body) < 6000+wkr*300; k++ {
+						body = append(body, []byte(fmt.Sprintf("{\"worker\":%d,\"round\":%d,\"line\":%d,\"text\":\"compressible json body\"},\n", wkr, round, k))...)
+					}
+					func() {
+						defer func() {
+							if r := recover(); r != nil {
+								report(map[string]interface{}{"property": "C20+C05", "kind": "panic-in-concurrent-cold-fetch", "key": string(key), "panic": fmt.Sprint(r)})
+							}
+						}()
+						hc := d.GetHTTPCache(key)
+						if st, _ := hc.Get(); st != cache.StatusFetching {
+							report(map[string]interface{}{"property": "C20", "kind": "cold-key-not-fetching", "key": string(key), "status": st.String()})
+							return
+						}
+						h := http.Header{}
+						h.Set("Content-Type", "application/json")
+						resp, err := cache.NewHTTPResponse(200, h, "", append([]byte{}, body...))
+						if err != nil {
+							return
+						}
+						resp.CompressMinLength = 1000
+						hc.Cacheable(resp, 60)
+						for _, acc := range []string{"gzip", "br", ""} {
+							st, stored := d.GetHTTPCache(key).Get()
+							if st != cache.StatusHit || stored == nil {
+								report(map[string]interface{}{"property": "C20", "kind": "stored-key-not-hit", "key": string(key), "status": st.String()})
+								return
+							}
+							req := httptest.NewRequest("GET", "/", nil)
+							if acc != "" {
+								req.Header.Set("Accept-Encoding", acc)
+							}
+							c := elton.NewContext(httptest.NewRecorder(), req)
+							if err := stored.Fill(c); err != nil || c.BodyBuffer == nil {
+								report(map[string]interface{}{"property": "C20+C05", "kind": "hit-not-served", "key": string(key), "accept": acc, "error": fmt.Sprint(err)})
+								return
+							}
+							got := c.BodyBuffer.Bytes()
+							var derr error
+							switch c.GetHeader("Content-Encoding") {
+							case "gzip":
+								got, derr = refGunzip(got)
+							case "br":
+								got, derr = refBrotliDecode(got)
+							}
+							if derr != nil || !bytes.Equal(got, body) {
+								report(map[string]interface{}{"property": "C20+C05", "kind": "hit-body-differs-from-what-was-stored", "key": string(key), "accept": acc,
+									"content_encoding": c.GetHeader("Content-Encoding"), "decode_error": fmt.Sprint(derr), "want_len": len(body), "got_len": len(got)})
+								return
+							}
+						}
+					}()
+				}
+			}(wkr)
+		}
+		wg.Wait()
+		sum.Distribution["concurrent_cold_fetches"] = workers * rounds
+		for _, v := range bad {
+			sum.ImplViolations = append(sum.ImplViolations, v)
 		}
 		_ = os.Remove(out + "/inflight.json")
 	}
